@@ -50,6 +50,11 @@ CLAIMED = {
         note="Bounded: graphs W<=2,N<=2 (quick) / W<=3,N<=3 (thorough), Buffered N<=3/5, cap 0..2; random W<=4, caps {0,1,2,3,16}. Thread exit is observed via the drop of the upstream iterator; hang = no exit signal within 1.5-10 s for microsecond work (timing-only verdicts re-run once). std mpsc semantics trusted.",
         technique="TLA+ specs of Pipe (drop, panic+hook) and Buffered model-checked with TLC incl. negative controls; graph edge covers replayed as controlled schedules; recorded runs judged by TLC monitor/trace specs",
         ref="6 C09"),
+    "C19": dict(
+        text="TLC explores every behaviour of the greedy training machine spec/BpeTrain.tla (merge any adjacent pair of maximal positive recounted frequency, left-to-right non-overlapping replacement) for small corpora with repeats/overlaps that are exhausted before the requested number of merges; invariants: no duplicate entry, table well-formed, at most the requested merges; termination; negative control (zero-frequency merging) violates NoDuplicates. CountReduce.tla covers the counting threads under every schedule. Binding: TLC-enumerated and random corpora are written to files, the real train_bpe runs with 0/1/3 threads, and each written table is validated by Trace_BpeTrain as a behaviour of the spec (ids 0..n-1, every entry a max-positive pair of the corpus as segmented so far; tie choice and split searched by TLC); the tables are then loaded into real tokenizers and checked with the C02/C04 clauses.",
+        note="Bounded: <=3 distinct words (pool of 8, <=4 symbols) exhaustively; random <=6 words of <=7 letters over <=3 letters, <=24 merges. Corpora restricted to ASCII letters and single spaces (clean/NFKC identity). Thread schedules of the real counting stage are not controlled (result must be valid for each thread count).",
+        technique="TLA+ greedy training machine model-checked with TLC; corpora replayed through the real trainer; written tables validated as spec behaviours by a TLC trace spec",
+        ref="6 C19"),
     "C12": dict(
         text="TLC explores the alignment machine of spec/EditDist.tla for all text pairs up to length 3 over a whitespace and two other symbols and all flag combinations and checks in every state that the row-DP of the mechanism layer is the least alignment cost (Bellman conditions), termination and the range/prefix consequences; the spec is bound to the code by replaying the TLC-enumerated input space (all pairs up to length 3/4 x flags x 4 concretisations incl. multi-byte and grapheme clusters) and seeded random pairs up to 14 characters through distance/distances/prefix_distance/operations and validating every recorded call with Trace_EditDist (exact distance, exact rational for the normalised value, script is an Align behaviour of cost D).",
         note="Bounded: MC up to length 3, replay up to length 4, random up to 14. Trusted: unicode-segmentation and char::is_whitespace for the view; float vs rational tolerance 1e-6; TLC.",
